@@ -186,6 +186,14 @@ def enum_tarballs(seed):
                     os.symlink("real", os.path.join(src, "ln1"))
                 if not os.path.lexists(os.path.join(src, "ln2")):
                     os.symlink("ln1", os.path.join(src, "ln2"))
+            # a hardlink group of zero-length files (.keep / lock files) next to the non-empty ones
+            if rnd.random() < .6:
+                e1 = os.path.join(src, "empty-1")
+                if not os.path.lexists(e1):
+                    open(e1, "w").close()
+                    for n2 in ("empty-2", "zz-empty-3"):
+                        if not os.path.lexists(os.path.join(src, n2)):
+                            os.link(e1, os.path.join(src, n2))
             # set-id and sticky bits (applied last: a chown after chmod would clear them)
             for dp, dn, fn in os.walk(src):
                 for n_ in fn:
